@@ -262,6 +262,60 @@ pub fn run_case(rng: &mut Rng) -> CaseOut {
             out.inc("probe_created_class");
         }
     }
+    // ---- single-node probes built over the handles as they were returned during the history (some of their classes were
+    // merged away since): lookup(node) succeeds exactly when add(node) creates nothing, and returns an equal invocation
+    {
+        let hs: Vec<AppliedId> = ids.values().cloned().collect();
+        for _ in 0..(2 * hs.len()).min(12) {
+            let x = hs[rng.below(hs.len())].clone();
+            let y = hs[rng.below(hs.len())].clone();
+            let stale = !eg.is_alive(x.id) || !eg.is_alive(y.id);
+            let n = match rng.below(5) {
+                0 => LSym::U(x.clone()),
+                1 => LSym::W(x.clone()),
+                2 => LSym::App(x.clone(), y.clone()),
+                3 => LSym::Pair(y.clone(), x.clone()),
+                _ => match x.m.values().iter().next() {
+                    Some(s) => LSym::Idx(*s, x.clone()),
+                    None => LSym::U(x.clone()),
+                },
+            };
+            let before = fp(&eg);
+            let lk = match guard(|| eg.lookup(&n)) {
+                Ok(v) => v,
+                Err(p) => {
+                    out.fail(Fail::panic("panic-in-lookup", &p, &format!("lookup({n:?})"), cj.clone()));
+                    return out;
+                }
+            };
+            if fp(&eg) != before {
+                out.fail(Fail::new("lookup-modified-egraph", "node", format!("lookup({n:?}) changed the e-graph"), cj.clone()));
+                return out;
+            }
+            let a = match guard(|| eg.add(n.clone())) {
+                Ok(a) => a,
+                Err(p) => {
+                    out.fail(Fail::panic("panic-in-add", &p, &format!("add({n:?})"), cj.clone()));
+                    return out;
+                }
+            };
+            let created = fp(&eg).0 != before.0;
+            out.inc("node_probes");
+            if stale {
+                out.inc("node_probes_over_merged_handles");
+            }
+            if lk.is_some() == created {
+                out.fail(Fail::new("lookup-add-disagree", format!("node/{}", if created { "lookup-some-but-created" } else { "lookup-none-but-nothing-created" }), format!("lookup({n:?}) = {lk:?} but add created a class: {created} (handles of merged classes involved: {stale})"), cj.clone()));
+                return out;
+            }
+            if let Some(l) = &lk {
+                if !eg.eq(l, &a) {
+                    out.fail(Fail::new("lookup-add-disagree", "node/different-invocation", format!("lookup({n:?}) = {l:?}, add returned {a:?}"), cj.clone()));
+                    return out;
+                }
+            }
+        }
+    }
     let (n, bad) = structural_invariants(&eg);
     out.add("invariant_checks", n);
     if let Some((sig, d)) = bad {
